@@ -56,14 +56,19 @@ Definition redirect_of (kind : N) : option (coded VT) :=
   | _ => None
   end.
 
+(* the declared fields with their names as header names (computed once) *)
+Definition named (declared : list (str * fval)) : list (option str * fval) :=
+  map (fun f => (header_name (fst f), snd f)) declared.
+
 (* the values declared for header name n *)
-Fixpoint candidates (declared : list (str * fval)) (n : str) : list str :=
-  match declared with
+Fixpoint candidates_n (d : list (option str * fval)) (n : str) : list str :=
+  match d with
   | [] => []
-  | (k, FStr v) :: t =>
-      if option_eqb str_eqb (header_name k) (Some n) then v :: candidates t n else candidates t n
-  | (_, FOther) :: t => candidates t n
+  | (Some k, FStr v) :: t => if str_eqb k n then v :: candidates_n t n else candidates_n t n
+  | _ :: t => candidates_n t n
   end.
+Definition candidates (declared : list (str * fval)) (n : str) : list str :=
+  candidates_n (named declared) n.
 
 Definition explicit_honoured (hs explicit : hmap) : bool :=
   forallb (fun e => option_eqb strs_eqb (hm_get hs (fst e)) (Some (snd e))) explicit.
@@ -71,23 +76,21 @@ Definition explicit_honoured (hs explicit : hmap) : bool :=
 (* "declared response headers are sent with the given values, headers added
    explicitly override declared ones of the same name" *)
 Definition declared_honoured (hs explicit : hmap) (declared : list (str * fval)) : bool :=
+  let d := named declared in
   forallb (fun f =>
              match f with
-             | (k, FStr v) =>
-                 match header_name k with
-                 | None => false
-                 | Some n =>
-                     if hm_has explicit n then true
-                     else match hm_get hs n with
-                          | Some [x] =>
-                              let c := candidates declared n in
-                              mem_str x c &&
-                              match c with [_] => str_eqb x v | _ => true end
-                          | _ => false
-                          end
-                 end
+             | (Some n, FStr v) =>
+                 if hm_has explicit n then true
+                 else match hm_get hs n with
+                      | Some [x] =>
+                          let c := candidates_n d n in
+                          mem_str x c &&
+                          match c with [_] => str_eqb x v | _ => true end
+                      | _ => false
+                      end
+             | (None, FStr _) => false
              | (_, FOther) => true
-             end) declared.
+             end) d.
 
 Definition has_bad_name (declared : list (str * fval)) : bool :=
   existsb (fun f => match header_name (fst f) with None => true | Some _ => false end) declared.
